@@ -248,7 +248,7 @@ StepViewFrozen ==
      \A k \in Lines : k > pc => /\ Rhs(Rel(k), x) = Rhs(Rel(k), x0)
                                 /\ x[Rel(k).i] = x0[Rel(k).i]
 
-(* NOT an invariant (negative control, see MC_LinRelNeg.cfg): without the  *)
+(* NOT an invariant (negative control, MC_LinRelSys_neg.cfg): without the  *)
 (* independence premise an earlier line may be broken by a later one       *)
 DependentAlsoHold == bx = 0 => \A k \in Applied : Holds(Rel(k), x)
 
